@@ -37,8 +37,8 @@ structure SeqGated (m : InMsg) : Prop where
 
 def persistObs (cfg : Cfg) (m : OutMsg) : Obs := if cfg.persist then .saved m.seq m.kind (resendable m) else .incS
 
-/-- the numbered message -/
-def numbered (s : Sess) (m : OutMsg) : OutMsg := { m with seq := s.store.sender }
+/-- the message as `prepMessageForSend` sends it: header filled (tag 369 when the option is on), numbered -/
+def numbered (s : Sess) (m : OutMsg) : OutMsg := { stamp s m with seq := s.store.sender }
 
 structure AdminSent (s : Sess) (m : OutMsg) (s' : Sess) : Prop where
   st : s'.st = s.st
